@@ -403,14 +403,16 @@ pub fn type_check_rec<'a>(
                                     .map(|(variable, annotation, definition)| {
                                         (
                                             *variable,
+                                            // The variables bound by the let itself must not
+                                            // be shifted, hence the cutoff.
                                             Rc::new(unsigned_shift(
                                                 annotation,
-                                                0,
+                                                definitions.len(),
                                                 definitions_len_minus_one_minus_i,
                                             )),
                                             Rc::new(unsigned_shift(
                                                 definition,
-                                                0,
+                                                definitions.len(),
                                                 definitions_len_minus_one_minus_i,
                                             )),
                                         )
